@@ -57,6 +57,22 @@ CLAIMS = {
             "Exploration: token lists mixing valid and invalid flag combinations (values with spaces, '=', operator characters, junk before/after, repeated and positional tokens, -x=v/--x forms) are rendered with the harness' own shell quoting; whatever flags.Parse accepts must reflect every token (filters partition their argument completely, lists are complete, one rule family, exactly one of -a/-A).",
             "Acceptance is never demanded; whitespace trimming at item ends and dropping of empty list items are tolerated.",
             "DESIGN.md section 5, C14"),
+    "C08": ("model-based property testing (rapid): generated operation histories against a scripted simulated kernel (errno, interleaved events, transient receive failures, foreign sequence numbers), result/data oracle per operation",
+            "Exploration: every command method is run against a simulated kernel whose answer script is part of the generated case; nil must coincide with 'every ack errno 0 and no foreign reply', errors must identify the errno, returned status/rules/counts must equal what the kernel sent, and the request seen by the kernel must carry the UAPI type, REQUEST|ACK and the caller's payload.",
+            "Simulated kernel (internal/simk) instead of the real audit subsystem; request sequence 0 is never handed out; at most 9 transient failures in a row.",
+            "DESIGN.md section 5, C08"),
+    "C16": ("property testing (rapid) + exhaustive length sweep against an independent audit_status layout and the kernel header snapshot",
+            "Exploration: the request the simulated kernel sees for every setter x argument x wait mode is compared word by word with an independently written audit_status layout; GetStatus and FromWireFormat are checked on generated buffers of every length 0..80 inside poisoned arenas with garbage-filled receivers; all exported constants are compared with the kernel's numbers.",
+            "Field offsets hand-written from struct audit_status; constants from the committed header snapshot.",
+            "DESIGN.md section 5, C16"),
+    "C17": ("model-based property testing (rapid): pending-ACK list model, Close bookkeeping from the kernel's view, aliasing check through a reused poisoned receive buffer; race-detector stress of concurrent Close",
+            "Exploration: histories of NoWait/WaitForReply requests, WaitForPendingACKs (also repeated / with nothing pending), GetRules followed by more traffic, and 0..4 Close calls; the number of receive calls, the error returned, the requests sent at Close and the socket-close count are predicted by a model; returned rule slices are compared with snapshots after every later receive. Concurrent Close from 2..8 goroutines runs under -race.",
+            "No synchronous request while ACKs are pending; return value of later Close calls unasserted.",
+            "DESIGN.md section 5, C17"),
+    "C18": ("property testing (rapid) against real AF_NETLINK sockets using the kernel's verbatim echo of refused requests as the oracle; spoofed datagrams from a second socket; exhaustive length sweeps; race-detector stress of concurrent senders",
+            "Exploration: requests with generated type/flags/payload are sent to NETLINK_ROUTE; the kernel refuses them and echoes the request, so header length, type, flags, port id, sequence and payload on the wire are observed through the kernel and compared with what was sent and returned. Datagrams of every length 1..64 from a user-space sender (unicast and multicast) must be refused; the audit parser is swept over every buffer length. N x M concurrent sends must give distinct, per-goroutine increasing sequences equal to those on the wire.",
+            "Needs AF_NETLINK (undecided otherwise). A kernel datagram of exactly 16 bytes cannot be provoked in the sandbox, so that boundary of NetlinkClient.Receive is not reached.",
+            "DESIGN.md section 5, C18"),
 }
 
 NOT_YET = "check not built yet (construction in progress; see DESIGN.md section 11)"
